@@ -46,7 +46,7 @@ def unit_props(udef):
     for part in udef['parts']:
         if part['kind'] == 'item':
             props.update(part.get('auto_props', []))
-        if part['kind'] != 'fn':
+        if part['kind'] not in ('fn', 'closure'):
             continue
         props.update(part.get('props', []))
         props.update(part.get('auto_props', []))
